@@ -22,7 +22,7 @@ func propC13() Property {
 			"R3 (reader entries): a new entry is opened exactly under the delimiter test (the first template item), and appended to the entries before the member is stored, so the delimiter lands in the new entry. " +
 			"R4 (reader members): a member is stored under the tag of the first field of the window it was read from, and the stored window is the one captured before the item consumed its fields (nested groups keep their whole extent). " +
 			"R5 (dictionary-guided parser, no field lost): in the group sub-parser every extracted field is placed — appended to the group window, or filed into header/trailer/body — before the next extraction and before any exit; the group window is handed to the body before every exit and before it is replaced by a new window. These are what 'the fields following the group are still found' needs. " +
-			"R6 (sibling agreement): the predicate 'this tag path starts a group' and the function returning the group's member definitions walk the dictionary identically: the one returns true under exactly the conditions under which the other returns a definition list. R7: in the sub-parser a field joins the group window only under a positive membership test of its tag, and the tag path and the member definitions change in step on every way round the loop (where definitions are re-read for a path, the path variable takes that same path; neither changes alone). R8 (shared with C10): setting a group into a field map updates the tag list and the lookup table as a pair (a group set twice must not be written twice).",
+			"R6 (sibling agreement): the predicate 'this tag path starts a group' and the function returning the group's member definitions walk the dictionary identically: the one returns true under exactly the conditions under which the other returns a definition list. R7: in the sub-parser a field joins the group window only under a positive membership test of its tag, and the tag path and the member definitions change in step on every way round the loop (where definitions are re-read for a path, the path variable takes that same path; neither changes alone). R8 (shared with C10): setting a group into a field map updates the tag list and the lookup table as a pair (a group set twice must not be written twice). R9: Clone of a group item returns a fresh group with tag and template only (no whole-struct copy, no entries). R10 (shared with C19): the builder constructs every field/group definition for its occurrence; it never returns one from a by-name cache (groups are defined inline per message, the same name has different members in different messages).",
 		NotDecided: "the round-trip equality itself (same entries, fields, values, order) for all templates and layouts; the position-dependent decisions of the dictionary-guided parser (whether a field after a nested group belongs to the parent group); groups of every shipped dictionary.",
 		Rules: []RuleDef{
 			{ID: "C13-R1", Desc: "writer: count field = tag + len of the iterated entries", Min: 3, Run: c13R1},
@@ -33,14 +33,16 @@ func propC13() Property {
 			{ID: "C13-R6", Desc: "group predicate and group-definition lookup agree", Min: 2, Run: c13R6},
 			{ID: "C13-R7", Desc: "sub-parser: membership before joining the window; tag path and definitions in step", Min: 4, Run: c13R7},
 			{ID: "C13-R8", Desc: "a group is set into a field map with paired tag-list / lookup updates (= C10-R1)", Min: 4, Run: c10R1},
+			{ID: "C13-R9", Desc: "a cloned group item is empty (tag and template only)", Min: 1, Run: c13R9},
+			{ID: "C13-R10", Desc: "group definitions are built per occurrence, never reused by name (= C19-R8)", Min: 2, Run: c19R8},
 		},
 	}
 }
 
 type rgInfo struct {
-	T                       *types.Named
+	T                        *types.Named
 	fTag, fTemplate, fGroups *types.Var
-	write, read             *ssa.Function
+	write, read              *ssa.Function
 }
 
 func getRG(p *Prog) *rgInfo {
